@@ -1272,7 +1272,7 @@ pub fn run_verifier<C: Cv>(
     let _ = cx.tx.borrow_mut().drain();
     merlin::trace::stop();
     let ev = json!({"ev": if split {"verify2"} else {"verify"}, "role":"V", "cap": bp.gens_capacity, "tx": ops, "res": res,
-                    "ncb": *cx.ncb_run.borrow()});
+                    "ncb": *cx.ncb_run.borrow(), "panicked": res.starts_with("panic")});
     let mut events = std::mem::take(&mut *cx.events.borrow_mut());
     if record {
         events.push(ev);
